@@ -829,14 +829,14 @@ int __wrap_sched_yield(void) {
 // result (0 = nothing ready).  block_setup() fills the io_* fields.
 }  // extern "C"
 template <class Probe, class Setup>
-static int wait_common(int timeout_ms, Probe probe, Setup block_setup) {
+static int wait_common(int64_t timeout_ms, Probe probe, Setup block_setup) {
   Thread *t = t_self;
   bool hook_owner = (g_hook && *g_hook && g_hook_thread == t);
   if (hook_owner) {
     ++g_wait_calls;
-    if (g_wait_entry_hook && *g_wait_entry_hook) { NoSched ns; (*g_wait_entry_hook)(timeout_ms); }
+    if (g_wait_entry_hook && *g_wait_entry_hook) { NoSched ns; (*g_wait_entry_hook)(timeout_ms > 2000000000 ? 2000000000 : (int)timeout_ms); }
   }
-  int64_t deadline = timeout_ms < 0 ? -1 : g_now + (int64_t)timeout_ms * 1000000;
+  int64_t deadline = timeout_ms < 0 ? -1 : (timeout_ms > 9000000000000LL ? -1 : g_now + timeout_ms * 1000000);
   bool eintr_done = false;
   if (++g_steps > g_step_cap) stepcap();
   for (;;) {
@@ -885,7 +885,7 @@ int __wrap_select(int nfds, fd_set *r, fd_set *w, fd_set *e, struct timeval *tv)
   Ig ig_;
   fd_set r0, w0, e0;
   if (r) r0 = *r; if (w) w0 = *w; if (e) e0 = *e;
-  int timeout = tv ? (int)(tv->tv_sec * 1000 + (tv->tv_usec + 999) / 1000) : -1;
+  int64_t timeout = tv ? ((int64_t)tv->tv_sec * 1000 + (tv->tv_usec + 999) / 1000) : -1;
   int res = wait_common(
       timeout,
       [&]() -> int {
